@@ -196,7 +196,7 @@ def run(ctx):
                           "msg": "%s (default tie-break): %s" % (e["tag"], r["viol"]), "case": {"entry": e, "prefix": []}})
     sl = slice_entries(ctx)
     max_dev = ctx.pick(1, 2)
-    budget = ctx.pick(120, 1500)
+    budget = ctx.pick(70, 1500)
     del _SLICE[:]
     _SLICE.extend(sl)
     infos = explore_many(len(sl), lambda items: pmap(run_item, items, jobs=ctx.jobs, seed=ctx.seed, chunk=4), max_dev, budget)
